@@ -1317,6 +1317,11 @@ func (x *cluster) trackNodeLeftEvent(ev events.NodeLeftEvent) {
 	x.eventsLock.Lock()
 	defer x.eventsLock.Unlock()
 
+	// ignore self, as the join side does: the local node never reports itself
+	if x.node.PeersAddress() == ev.NodeLeft {
+		return
+	}
+
 	x.nodeJoinedEventsFilter.Remove(ev.NodeLeft)
 	if x.nodeLeftEventsFilter.Contains(ev.NodeLeft) {
 		return
